@@ -1464,9 +1464,16 @@ func c12failedInit(rep *vh.Report, r *vh.RNG) {
 			// the application corrects its configuration and tries again ON THE SAME Node value: that life starts, works and
 			// closes like any other
 			tr2 := fake.NewTransport("fi-retry")
-			node.Endpoints = []gomavlib.EndpointConf{gomavlib.EndpointCustom{ReadWriteCloser: tr2}, good[1], good[2]}
+			tp2, up2 := freeTCPPort(), freeUDPPort()
+			node.Endpoints = []gomavlib.EndpointConf{gomavlib.EndpointCustom{ReadWriteCloser: tr2},
+				gomavlib.EndpointTCPServer{Address: fmt.Sprintf("127.0.0.1:%d", tp2)}, gomavlib.EndpointUDPServer{Address: fmt.Sprintf("127.0.0.1:%d", up2)}}
 			node.Dialect = testDialect
 			if err := node.Initialize(); err != nil {
+				if strings.Contains(err.Error(), "address already in use") && !portHeldBySelf("tcp", tp2) && !portHeldBySelf("udp", up2) {
+					// (another process on this machine took the port between the probe and the bind: nothing to judge)
+					rep.Count("ports_taken_by_another_process_meanwhile", 1)
+					continue
+				}
 				rep.Violation("what=init-leak:"+c.name+":retry", "after a failed Initialize the same Node value could not be initialised with a corrected configuration: "+err.Error(), wit)
 				continue
 			}
